@@ -44,6 +44,7 @@ func c03Check(env *core.Env, cc core.Case) core.Verdict {
 	orders := map[string]bool{}
 	sandbox := env.TempDir()
 	defer os.RemoveAll(sandbox)
+	var staleTree sut.Tree
 	for i := 0; i < k; i++ {
 		root := filepath.Join(sandbox, fmt.Sprintf("run%02d", i), "crs")
 		_ = os.MkdirAll(filepath.Join(root, "regex-assembly", "include"), 0o755)
@@ -110,6 +111,9 @@ func c03Check(env *core.Env, cc core.Case) core.Verdict {
 				tree["regex-assembly/"+stale+".ra"] = []string{"nowhere\n", "nowhere\n##!=> neverstored\n", "##!> frobnicate\nnowhere\n"}[len(c.Proj.Files)%3] // no rule for it, or no regex from it
 				tree["rules/REQUEST-"+stale[:3]+"-STALE-LANE.conf"] = "# the rule " + stale + " was removed\n"
 			}
+			if i == 0 {
+				staleTree = tree
+			}
 			if err := tree.WriteOrdered(root, i%2 == 1); err != nil {
 				return core.Incon("cannot write tree: %v", err)
 			}
@@ -129,6 +133,28 @@ func c03Check(env *core.Env, cc core.Case) core.Verdict {
 		outcomes[key]++
 		if first == nil {
 			first = &o
+		}
+	}
+	if c.Stale && c.Kind == "tree" {
+		// what a failed run leaves behind is no input of the next command: the same command in the tree of the failed run
+		// and in a fresh copy of the tree gives the same exit status and the same files
+		used, freshRoot := filepath.Join(sandbox, "run00", "crs"), filepath.Join(sandbox, "fresh", "crs")
+		if _, err := os.Stat(used); err == nil && staleTree != nil {
+			ft := staleTree
+			_ = ft.WriteOrdered(freshRoot, false)
+			// bring the files the failed run may have rewritten back to their first state in the used tree
+			_ = ft.WriteOrdered(used, false)
+			for _, next := range [][]string{{"regex", "format", "--all"}, {"regex", "update", "941100"}} {
+				ru := sut.Run(sut.Cmd{Bin: env.Bin, Args: append([]string{"-d", used}, next...), Dir: used})
+				rf := sut.Run(sut.Cmd{Bin: env.Bin, Args: append([]string{"-d", freshRoot}, next...), Dir: freshRoot})
+				if ru.Class() == sut.ClassTimeout || rf.Class() == sut.ClassTimeout {
+					break
+				}
+				if ru.Exit != rf.Exit {
+					return core.Viol("depends-on-earlier-run:"+c.Lane, "%v exits %d in the tree in which %v had failed before and %d in a fresh copy of the same files\nused tree: %s\nfresh tree: %s", next, ru.Exit, c.Cmd, rf.Exit, describe(ru), describe(rf))
+				}
+				v.Counts["runs_after_a_failed_run"]++
+			}
 		}
 	}
 	v.Counts["executions"] = k
